@@ -264,6 +264,24 @@ func sessionDomain(r *fw.Rand, m *policyModel) string {
 	return gen.RandCase(r, "alpha.test")
 }
 
+// dataShapes are the data blocks of the session transactions (each ends with CRLF; the final dot
+// is added when sent).
+var dataShapes = []string{
+	"Subject: c05\r\n\r\nbody\r\n",
+	"Subject: c05\r\n\r\nbody\r\n",
+	"From: a@from.test\r\nTo: b@to.test\r\nSubject: c05 full\r\nDate: Mon, 02 Jan 2006 15:04:05 -0700\r\n\r\nbody\r\n",
+	"\r\nno header at all\r\n",
+	"just a line\r\n",
+	" folded: from nowhere\r\nSubject: odd\r\n\r\nbody\r\n",
+	"\tSubject: indented\r\nFrom: a@from.test\r\n\r\nbody\r\n",
+	"X Mailer: home grown\r\nSubject: odd name\r\n\r\nbody\r\n",
+	"Subject c05 no colon\r\n\r\nbody\r\n",
+	": empty name\r\n\r\nbody\r\n",
+	"Subject: =?utf-8?q?broken\r\nContent-Type: multipart/mixed; boundary=\r\n\r\nbody\r\n",
+	"Subject: nul \x00 and high \xff\xfe bytes\r\n\r\nbody \x00\r\n",
+	"Content-Type: text/plain; charset=\"unknown-charset\"\r\nContent-Transfer-Encoding: base64\r\n\r\n!!!not base64!!!\r\n",
+}
+
 func sessionCase(c *fw.Ctx, r *fw.Rand) {
 	m := genModel(r)
 	conf := load(c, r, m)
@@ -374,6 +392,7 @@ func sessionCase(c *fw.Ctx, r *fw.Rand) {
 		return
 	}
 	c.Count("sessions", 1)
+	refusedData := false
 	outcomes := map[string]bool{}
 	extraSeen := map[string]bool{} // further non-trivial signatures: pattern arrangements, script hook kinds x decisions
 	defer func() {
@@ -559,10 +578,19 @@ func sessionCase(c *fw.Ctx, r *fw.Rand) {
 				c.Inconclusive(fmt.Sprintf("DATA with accepted recipients answered %v %v (C03 territory)", rep, err))
 				return
 			}
-			rep, err = ss.Cmd("Subject: c05\r\n\r\nbody\r\n.")
-			if err != nil || rep.Code != 250 {
+			// The store rule does not depend on what the message looks like (shapes added after
+			// seeded change C05-10: a fallback path for unparseable headers that skips the rule).
+			// A message the server refuses (451 for headers it cannot parse) is stored for nobody.
+			shape := r.Intn(len(dataShapes))
+			rep, err = ss.Cmd(dataShapes[shape] + ".")
+			if err != nil || (rep.Code != 250 && rep.Class() != 4 && rep.Class() != 5) {
 				c.Inconclusive(fmt.Sprintf("end of DATA answered %v %v", rep, err))
 				return
+			}
+			c.Count(fmt.Sprintf("data_shape_%d_answered_%dxx", shape, rep.Class()), 1)
+			if rep.Code != 250 {
+				outcomes["end:data-refused"] = true
+				refusedData = true
 			}
 			if script != nil {
 				c.Count("lua_transactions_delivered", 1)
@@ -574,6 +602,9 @@ func sessionCase(c *fw.Ctx, r *fw.Rand) {
 		var names []string
 		for _, a := range accepted {
 			names = append(names, strings.ToLower(a.local))
+		}
+		if refusedData {
+			accepted, refusedData = nil, false
 		}
 		snap, err := sut.Snapshot(env.Store, names, false)
 		if err != nil {
